@@ -498,6 +498,12 @@ fn gen_case<A: QElem>(rng: &mut Rng, max_lane: usize) -> Case<A> {
     if rng.chance(0.08) {
         shape[axis] = 1;
     }
+    // arrays without lanes: an axis other than the reduced one has length zero (the result is an empty array
+    // whose shape must still be the documented one)
+    if nd >= 2 && rng.chance(0.03) {
+        let o = (axis + 1 + rng.below(nd - 1)) % nd;
+        shape[o] = 0;
+    }
     let total: usize = shape.iter().product();
     let data = gen_lane_values::<A>(rng, total);
     let layout = if rng.chance(0.15) { Layout::canonical(nd) } else { Layout::random(nd, rng) };
